@@ -57,6 +57,24 @@ def c05LastN (args : Json) : Except String Json := do
   let vt := if (getStr args "variant").toOption == some "repaired" then LK.Split.Variant.repaired else LK.Split.Variant.asIs
   pure (Json.arr ((LK.Split.lastN vt times n).map natJ).toArray)
 
+def c05GlobalTime (args : Json) : Except String Json := do
+  let times ← (← getArr args "times").mapM (·.getInt?)
+  let tz ← getInt args "tz"
+  let reprOf (s : String) : LK.Split.TRepr := if s == "naive" then .naive else .unix
+  let col := reprOf (← getStr args "col")
+  let pairOf (e : Json) : Except String (LK.Split.TRepr × Int) := do
+    match (← e.getArr?).toList with
+    | [f, x] => pure (reprOf (← f.getStr?), ← x.getInt?)
+    | _ => throw "bad cut"
+  let cuts ← (← getArr args "cuts").mapM pairOf
+  let endT ← match getOpt args "end" with | none => pure none | some e => do pure (some (← pairOf e))
+  let vt := if (getStr args "variant").toOption == some "repaired" then LK.Split.Variant.repaired else LK.Split.Variant.asIs
+  let recs : List (LK.Split.IRec Nat) := (List.range times.length).map (fun k => { u := 0, i := k, t := times.getD k 0, a := k })
+  match LK.Split.splitGlobalTime vt tz col recs cuts endT with
+  | none => pure Json.null
+  | some ss => pure (Json.arr (ss.map (fun s => Json.mkObj [("train", Json.arr (s.1.map (fun r => natJ r.a)).toArray),
+      ("test", Json.arr (s.2.map (fun r => natJ r.a)).toArray)])).toArray)
+
 /-! C20 -/
 def c20Sample (args : Json) : Except String Json := do
   let nCols ← getNat args "nCols"
